@@ -636,6 +636,14 @@ func (po *PinOptions) Equals(po2 *PinOptions) bool {
 		}
 	}
 
+	// keys that are only present in po2
+	for k, v2 := range po2.Metadata {
+		v := po.Metadata[k]
+		if k != "" && v != v2 {
+			return false
+		}
+	}
+
 	// deliberately ignore Update
 
 	lenOrigins1 := len(po.Origins)
